@@ -177,6 +177,15 @@ impl Tunnel {
                         request.fail_request(err);
                         return;
                     }
+                    (Err(e), _, Some(_)) => {
+                        // An authorization header which cannot be understood is a failed
+                        // authentication, not a failed connection
+                        log_id!(debug, request_id, "Failed to get auth info: {}", e);
+                        request.fail_request(ConnectionError::Authentication(
+                            "Malformed authorization header".to_string(),
+                        ));
+                        return;
+                    }
                     (Err(e), ..) => {
                         log_id!(debug, request_id, "Failed to get auth info: {}", e);
                         request.fail_request(ConnectionError::Io(e));
